@@ -101,6 +101,16 @@ func (u *updateExecutor) beforeImage(ctx context.Context) (*types.RecordImage, e
 		return nil, err
 	}
 
+	// the primary key identifies the row in the undo log: a statement that assigns it is refused
+	// before it runs (refusing it afterwards would leave its effect in the caller's transaction)
+	for _, assignment := range u.parserCtx.UpdateStmt.List {
+		for _, pk := range metaData.GetPrimaryKeyOnlyName() {
+			if assignment.Column != nil && strings.EqualFold(assignment.Column.Name.O, pk) {
+				return nil, fmt.Errorf("update pk value is not supported! table: %s, column: %s", tableName, pk)
+			}
+		}
+	}
+
 	var rowsi driver.Rows
 	queryerCtx, ok := u.execContext.Conn.(driver.QueryerContext)
 	var queryer driver.Queryer
